@@ -939,6 +939,12 @@ func runConc(c Case) *vkit.Failure {
 		wg.Add(1)
 		go func(me int, ops []Op) {
 			defer wg.Done()
+			defer func() {
+				if p := recover(); p != nil {
+					st := string(debug.Stack())
+					s.failLocked("panic in "+egoFrame(st), fmt.Sprintf("panic: %v\n%s", p, clip(st, 4000)), "no panic")
+				}
+			}()
 			ver := [nClasses]int64{base, base, base}
 			var last [nClasses][maxWorkers]int64
 			<-startGate
